@@ -3215,7 +3215,10 @@ RESUME_VALIDATE_CERTS:
         rc = -1;  /* Force the check on existence of user callback */
     }
 
-    if (rc < 0)
+    /* A failure that the validation reported only through the certificates'
+       authStatus (expiry, key usage, name mismatch...) leaves rc >= 0 but has
+       set ssl->err above: without a callback that is just as fatal. */
+    if (rc < 0 || ssl->err != SSL_ALERT_NONE)
     {
         psTraceInfo("WARNING: cert did not pass internal validation test\n");
         /*      Cert auth failed.  If there is no user callback issue fatal alert
